@@ -104,8 +104,8 @@ fn pieces(line: &str) -> Vec<(usize, usize)> {
     out
 }
 
-const INLINE: &[&str] = &[" ", "\t", "  ", "/* c */", " /**/ ", "\\\n"];
-const ANY: &[&str] = &[" ", "\t", "\n", "\n\n", "/* c */", "// c\n", "\\\n", " /* a\n b */ ", "\n  "];
+const INLINE: &[&str] = &[" ", "\t", "  ", "/* c */", " /**/ ", "\\\n", "/*/ c */", "/*/*/", "/***/", "/*//*/"];
+const ANY: &[&str] = &[" ", "\t", "\n", "\n\n", "/* c */", "// c\n", "\\\n", " /* a\n b */ ", "\n  ", "/*/ c */", "/*/*/", "/***/", "//* c\n", "/* // */"];
 
 fn insert_trivia(text: &str, rng: &mut Rng, density: u64) -> String {
     let mut out = String::new();
